@@ -4,6 +4,7 @@ The underlying writer `w` is an ARBITRARY function (adversarial): every failure 
 failure mode, every buffer size are instances.
 -/
 import Sqroot.Proofs.Print
+import Sqroot.Proofs.FprintFault
 namespace Sqroot.Props.C12
 open Sqroot.Model Sqroot.Proofs
 
@@ -50,5 +51,37 @@ theorem buffered_writer_is_fifo (b b' : BufW) (p : List Nat) (n : Nat) (h : b.wr
     (b'.err = false → b'.sink.accepted ++ b'.buf = b.sink.accepted ++ b.buf ++ p) ∧
     (b.err = true → b' = b ∨ (b'.sink.accepted = b.sink.accepted ∧ b'.err = true)) :=
   bufw_write_spec b b' p n h
+
+/-! ### "stop consuming digits promptly after the fault": requests to the memoizer (v3)
+
+`Model/Fprint.lean` threads the memoizer state through `fromSequenceWithPositions` /
+`fromFiniteSequence` with their early exits (`rangeFault3`, `rangesFault3`, `fprintFault3`; the model
+walker of the correspondence check runs exactly these functions against the implementation's
+consult counter). `blockUp c q` is the demand, in whole blocks, that delivering position `q` needs. -/
+
+/-- a traversal left by its consumer after `take` delivered items has requested nothing beyond
+what delivering the LAST of them needs (`memoizer.Scan` returns without its next `wait`) -/
+theorem early_exit_requests_nothing_more (c : MemoCfg) (m : Memo) (v : Val3) (take : Nat)
+    (m' : Memo) (xs : List (Nat × Nat)) (hs : v.forward c m take = .ok (m', xs))
+    (hfull : xs.length = take) (hpos : 0 < take) :
+    ∃ q d, xs.getLast? = some (q, d) ∧ m'.maxLength ≤ max m.maxLength (blockUp c q) :=
+  forward_early_exit_exact c m v take m' xs hs hfull hpos
+
+/-- the range during which the error is latched: at least one digit was handed to the printer, and
+the demand afterwards is what delivering a position INSIDE that range needs — nothing is requested
+for the rest of the range -/
+theorem fault_stops_the_range (c : MemoCfg) (m : Memo) (pr : Printer) (v : Val3) (r : PRange)
+    (m' : Memo) (pr' : Printer) (h : rangeFault3 c m pr v r = some (.ok (m', pr')))
+    (hok : pr.raw.err = false) (herr : pr'.raw.err = true) :
+    pr.pulled < pr'.pulled ∧
+    ∃ q, m'.maxLength ≤ max m.maxLength (blockUp c q) ∧ (r.start ≤ (q : Int)) ∧ ((q : Int) < r.stop) :=
+  range_fault_prompt_stop c m pr v r m' pr' h hok herr
+
+/-- once the error is latched the remaining ranges request nothing at all: memoizer and printer
+are left exactly as they were -/
+theorem no_request_after_the_fault (c : MemoCfg) (m : Memo) (pr : Printer) (v : Val3) (rs : List PRange)
+    (herr : pr.raw.err = true) (res : Memo × Printer) (h : rangesFault3 c m pr v rs = some (.ok res)) :
+    res = (m, pr) :=
+  ranges_after_error c m pr v rs herr res h
 
 end Sqroot.Props.C12
